@@ -10,7 +10,7 @@ use crate::operator::conj::Conj;
 use crate::operator::OperatorParam;
 use crate::solver::{Solve, Solver};
 use crate::state::State;
-use crate::stream::Stream;
+use crate::stream::{LazyStream, Stream, StreamIterator};
 use crate::user::User;
 use crate::GoalCast;
 use std::rc::Rc;
@@ -57,12 +57,77 @@ where
     E: Engine<U>,
 {
     fn solve(&self, solver: &Solver<U, E>, state: State<U, E>) -> Stream<U, E> {
-        let mut stream = solver.start(&self.first, state.clone());
+        let stream = solver.start(&self.first, state.clone());
+        commit(solver, stream, self.rest.clone(), self.next.clone(), state, false)
+    }
+}
 
-        match solver.peek(&mut stream) {
-            Some(_) => Stream::bind(stream, self.rest.clone()),
-            None => self.next.solve(solver, state),
+/// Waits for the first goal of a conda/condu clause one search step at a time. A first goal
+/// that needs many steps, or never produces anything, must not block the rest of the search.
+#[derive(Derivative)]
+#[derivative(Clone(bound = "U: User"))]
+struct Commit<U, E>
+where
+    U: User,
+    E: Engine<U>,
+{
+    // Stream of the first goal; `None` once the clause has been decided
+    first: Option<Stream<U, E>>,
+    rest: Goal<U, E>,
+    next: Goal<U, E>,
+    state: State<U, E>,
+    // Keep only the first answer of the first goal (condu)
+    once: bool,
+}
+
+impl<U, E> StreamIterator<U, E> for Commit<U, E>
+where
+    U: User,
+    E: Engine<U>,
+{
+    fn clone_box(&self) -> Box<dyn StreamIterator<U, E>> {
+        Box::new(self.clone())
+    }
+
+    fn next(&mut self, solver: &Solver<U, E>) -> Option<Stream<U, E>> {
+        match self.first.take()? {
+            Stream::Empty => Some(solver.start(&self.next, self.state.clone())),
+            Stream::Lazy(LazyStream(lazy)) => {
+                self.first = Some(solver.engine().step(solver, *lazy));
+                Some(Stream::empty())
+            }
+            Stream::Unit(a) | Stream::Cons(a, _) if self.once => {
+                Some(Stream::bind(Stream::unit(a), self.rest.clone()))
+            }
+            stream => Some(Stream::bind(stream, self.rest.clone())),
         }
+    }
+}
+
+/// The stream of a conda (or with `once`, condu) clause whose first goal has the stream `first`.
+pub(crate) fn commit<U, E>(
+    solver: &Solver<U, E>,
+    first: Stream<U, E>,
+    rest: Goal<U, E>,
+    next: Goal<U, E>,
+    state: State<U, E>,
+    once: bool,
+) -> Stream<U, E>
+where
+    U: User,
+    E: Engine<U>,
+{
+    let mut commit = Commit {
+        first: Some(first),
+        rest,
+        next,
+        state,
+        once,
+    };
+    match commit.first {
+        // The first goal has not matured yet: decide the clause lazily.
+        Some(Stream::Lazy(_)) => Stream::iterator(Box::new(commit)),
+        _ => commit.next(solver).unwrap_or_else(Stream::empty),
     }
 }
 
